@@ -3,6 +3,7 @@ import json
 import os
 import re
 import vlib
+from props._conc import san_summary, SAN_ENV
 
 LEVEL = "proof"
 HARNESSES = [("h_validator", "asan"), ("h_validator", "tsan"), ("h_validator", "rel")]
@@ -38,11 +39,6 @@ META = {
                  "trace replay on the extracted model",
 }
 
-SAN_ENV = {
-    "ASAN_OPTIONS": "detect_leaks=0:abort_on_error=0:exitcode=23:allocator_may_return_null=1",
-    "UBSAN_OPTIONS": "print_stacktrace=1",
-    "TSAN_OPTIONS": "halt_on_error=1:exitcode=66:second_deadlock_stack=1",
-}
 
 
 def case_line(c):
@@ -104,28 +100,6 @@ def rel_cases(ctx, tier):
         out.append({"id": "h%d" % (i + 1), "w": w, "seed": r.below(1 << 30), "delay": 100, "spec": spec, "dup": dup,
                     "stop": i % 3, "rounds": 2, "realhash": 1, "tag": "realhash"})
     return out
-
-
-def san_summary(stderr):
-    """(kind, key, excerpt) of the first sanitizer report in stderr, or None"""
-    m = re.search(r"(ERROR: AddressSanitizer: [^\n]*|WARNING: ThreadSanitizer: [^\n]*|[^\n]*runtime error: [^\n]*|"
-                  r"ERROR: LeakSanitizer[^\n]*|ThreadSanitizer: [^\n]*)", stderr)
-    if not m:
-        return None
-    head = m.group(1).strip()
-    kind = "ubsan" if "runtime error" in head else ("tsan" if "ThreadSanitizer" in head else "asan")
-    what = re.sub(r"\s+on address.*| \(pid=.*|0x[0-9a-f]+", "", head.split(": ", 2)[-1] if kind != "ubsan" else
-                  head.split("runtime error: ")[1])
-    what = re.sub(r"-?\d+", "N", what)
-    fn = None
-    for fm in re.finditer(r"#\d+ (?:0x[0-9a-f]+ in )?(\S+).*?(/src/pop/\S+|/include/veriblock/\S+)", stderr[m.start():]):
-        fn = fm.group(1) + "@" + os.path.basename(fm.group(2)).split(":")[0]
-        break
-    if kind == "ubsan":
-        loc = re.match(r"(\S+?):(\d+)", head)
-        fn = os.path.basename(loc.group(1)) + ":" + loc.group(2) if loc else fn
-    key = "%s:%s:%s" % (kind, re.sub(r"[^A-Za-z0-9]+", "-", what).strip("-")[:40], fn or "?")
-    return kind, key, stderr[m.start():m.start() + 2500]
 
 
 def build_schedule(case, traces):
